@@ -79,7 +79,7 @@ Qed.
 Lemma nopen_upd i f : forall k l c,
   nth_error l k = Some c ->
   nopen i (upd k f l) =
-  nopen i l - b2z ((c_id c =? i)%N && c_open c) + b2z ((c_id (f c) =? i)%N && c_open (f c)).
+  nopen i l - b2z ((c_id c =? i)%N && c_live c) + b2z ((c_id (f c) =? i)%N && c_live (f c)).
 Proof.
   induction k as [|k IH]; intros [|x t] c H; cbn in *; try discriminate.
   - inversion H; subst. lia.
@@ -94,14 +94,40 @@ Proof.
 Qed.
 
 Lemma open_le_listed i : forall l,
-  (forall c, In c l -> c_open c = true -> c_listed c = true) -> nopen i l <= nlisted i l.
+  (forall c, In c l -> c_live c = true -> c_listed c = true) -> nopen i l <= nlisted i l.
 Proof.
   induction l as [|c t IH]; intro Q; cbn [nlisted nopen]; [lia|].
   assert (nopen i t <= nlisted i t) by (apply IH; intros x Hx; apply Q; right; exact Hx).
   pose proof (Q c (or_introl eq_refl)) as Hc. unfold b2z.
   destruct (c_id c =? i)%N; cbn [andb]; [|lia].
-  destruct (c_open c); [rewrite Hc by reflexivity; lia|destruct (c_listed c); lia].
+  destruct (c_live c); [rewrite Hc by reflexivity; lia|destruct (c_listed c); lia].
 Qed.
+
+(* what holds of every connection record of a reachable world: an open connection's handleClient has
+   not continued; while an auth handler is in flight nothing has been announced and handleClient
+   waits (wg.Wait); with no handler in flight the flag handleClient reads says whether the
+   connection was announced *)
+Definition wfb (c : conn) : bool :=
+  implb (c_open c) (negb (c_exited c)) &&
+  (if c_busy c then negb (c_ann c) && negb (c_exited c) else Bool.eqb (c_flag c) (c_ann c)).
+
+Definition wf_all (l : list conn) : Prop := forall c, In c l -> wfb c = true.
+
+Lemma wf_live_listed c : wfb c = true -> c_live c = true -> c_listed c = true.
+Proof. destruct c as [i [] [] [] [] []]; cbn; congruence. Qed.
+
+Lemma wf_upd l k f :
+  wf_all l -> (forall c, nth_error l k = Some c -> wfb c = true -> wfb (f c) = true) -> wf_all (upd k f l).
+Proof.
+  intros W F x Hx. destruct (in_upd _ _ _ _ Hx) as [H|(c & Hn & ->)]; [auto|].
+  apply F; [exact Hn|]. apply W. eapply nth_error_In; exact Hn.
+Qed.
+
+Lemma wf_app l c : wf_all l -> wfb c = true -> wf_all (l ++ [c]).
+Proof. intros W H x Hx. apply in_app_or in Hx. destruct Hx as [Hx|[<-|[]]]; auto. Qed.
+
+Lemma wf_close c : wfb c = true -> wfb (close_conn c) = true.
+Proof. destruct c as [i [] [] [] [] []]; cbn; congruence. Qed.
 
 (* ------------------------------------------------------------------ *)
 (* 3. a refused report                                                 *)
@@ -156,8 +182,7 @@ Proof. intros Hn Ho. cbn [wstep]. rewrite Hn, Ho. reflexivity. Qed.
 (* ------------------------------------------------------------------ *)
 
 Definition census_inv (w : world) : Prop :=
-  (forall i, listed i (online (logger w)) (nlisted i (conns w))) /\
-  (forall c, In c (conns w) -> c_open c = true -> c_listed c = true).
+  (forall i, listed i (online (logger w)) (nlisted i (conns w))) /\ wf_all (conns w).
 
 Lemma census_init : census_inv init_world.
 Proof. split; [intro i; apply listed_init|intros c []]. Qed.
@@ -165,7 +190,7 @@ Proof. split; [intro i; apply listed_init|intros c []]. Qed.
 Lemma wstep_length secret w e :
   Z.of_nat (length (conns (fst (wstep secret w e)))) <= Z.of_nat (length (conns w)) + 1.
 Proof.
-  destruct e as [i|slot i|slot st n other|slot|slot|r]; cbn [wstep].
+  destruct e as [i|slot i|slot st n other|slot|slot|r|i|slot ok|slot]; cbn [wstep].
   - cbn [fst conns]. rewrite app_length. cbn [length]. lia.
   - destruct (nth_error (conns w) slot) as [c|]; [|cbn; lia]. destruct (c_open c); cbn; lia.
   - destruct (nth_error (conns w) slot) as [c|]; [|cbn; lia].
@@ -175,70 +200,120 @@ Proof.
   - destruct (nth_error (conns w) slot) as [c|]; [|cbn; lia].
     destruct (c_open c); cbn [fst conns]; rewrite ?length_upd; lia.
   - destruct (nth_error (conns w) slot) as [c|]; [|cbn; lia].
-    destruct (_ && _); cbn [fst conns]; rewrite ?length_upd; lia.
+    destruct (_ && _); [destruct (c_flag c)|]; cbn [fst conns]; rewrite ?length_upd; lia.
   - destruct (http_step secret (logger w) r) as [s' h]. cbn. lia.
+  - cbn [fst conns]. rewrite app_length. cbn [length]. lia.
+  - destruct (nth_error (conns w) slot) as [c|]; [|cbn; lia].
+    destruct (_ && _); cbn [fst conns]; rewrite ?length_upd; lia.
+  - destruct (nth_error (conns w) slot) as [c|]; [|cbn; lia].
+    destruct (_ && _); cbn [fst conns]; rewrite ?length_upd; lia.
 Qed.
+
+(* the record invariant is kept by every event *)
+Lemma wf_step secret w e : wf_all (conns w) -> wf_all (conns (fst (wstep secret w e))).
+Proof.
+  intro W. destruct e as [j|slot j|slot st n other|slot|slot|r|j|slot ok|slot]; cbn [wstep].
+  - cbn [fst conns]. apply wf_app; [exact W|reflexivity].
+  - destruct (nth_error (conns w) slot) as [c|]; [|exact W]. destruct (c_open c); exact W.
+  - destruct (nth_error (conns w) slot) as [c|]; [|exact W].
+    destruct (c_open c); [|exact W].
+    destruct (do_log _ _ _ _) as [s' r]. destruct r; try exact W.
+    destruct (site_action _ _ _); cbn [fst conns]; [exact W|].
+    apply wf_upd; [exact W|]. intros x _. apply wf_close.
+  - destruct (nth_error (conns w) slot) as [c|]; [|exact W].
+    destruct (c_open c); [|exact W]. cbn [fst conns].
+    apply wf_upd; [exact W|]. intros x _. apply wf_close.
+  - destruct (nth_error (conns w) slot) as [c|] eqn:Hn; [|exact W].
+    destruct (negb (c_open c) && negb (c_busy c) && negb (c_exited c)) eqn:G; [|exact W].
+    destruct (c_flag c) eqn:F; cbn [fst conns]; (apply wf_upd; [exact W|]);
+      intros x Hx Hw; rewrite Hn in Hx; inversion Hx; subst x; revert G F Hw;
+      destruct c as [i [] [] [] [] []]; cbn; congruence.
+  - destruct (http_step secret (logger w) r) as [s' h]. exact W.
+  - cbn [fst conns]. apply wf_app; [exact W|reflexivity].
+  - destruct (nth_error (conns w) slot) as [c|] eqn:Hn; [|exact W].
+    destruct (c_busy c && negb (c_flag c)) eqn:G; [|exact W]. cbn [fst conns].
+    apply wf_upd; [exact W|]. intros x Hx Hw. rewrite Hn in Hx; inversion Hx; subst x. revert G Hw.
+    destruct ok; destruct c as [i [] [] [] [] []]; cbn; congruence.
+  - destruct (nth_error (conns w) slot) as [c|] eqn:Hn; [|exact W].
+    destruct (c_busy c && c_flag c) eqn:G; [|exact W]. cbn [fst conns].
+    apply wf_upd; [exact W|]. intros x Hx Hw. rewrite Hn in Hx; inversion Hx; subst x. revert G Hw.
+    destruct c as [i [] [] [] [] []]; cbn; congruence.
+Qed.
+
+(* an update that leaves the id and the "online notification outstanding" reading alone *)
+Lemma nlisted_upd_same i f : forall k l,
+  (forall c, c_id (f c) = c_id c /\ c_listed (f c) = c_listed c) ->
+  nlisted i (upd k f l) = nlisted i l.
+Proof.
+  induction k as [|k IH]; intros [|x t] F; cbn [upd nlisted]; try reflexivity.
+  - destruct (F x) as [-> ->]. reflexivity.
+  - rewrite IH by exact F. reflexivity.
+Qed.
+
+Lemma close_same c : c_id (close_conn c) = c_id c /\ c_listed (close_conn c) = c_listed c.
+Proof. split; reflexivity. Qed.
 
 Lemma close_keeps_inv w slot s' :
   online s' = online (logger w) -> census_inv w ->
   census_inv (mkWorld s' (upd slot close_conn (conns w))).
 Proof.
   intros Ho [I1 I2]. split; cbn [logger conns].
-  - intro i. rewrite Ho.
-    destruct (nth_error (conns w) slot) as [c|] eqn:Hn.
-    + rewrite (nlisted_upd i close_conn _ _ _ Hn). cbn [close_conn c_id c_listed].
-      replace (nlisted i (conns w) - _ + _) with (nlisted i (conns w)) by lia. apply I1.
-    + replace (upd slot close_conn (conns w)) with (conns w); [apply I1|].
-      clear -Hn. revert slot Hn. induction (conns w) as [|x t IH]; intros [|k] Hn; cbn in *;
-        try reflexivity; try discriminate. now rewrite <- IH.
-  - intros x Hx Hop. destruct (in_upd _ _ _ _ Hx) as [H|(c & _ & ->)]; [auto|].
-    cbn in Hop. discriminate.
+  - intro i. rewrite Ho. rewrite (nlisted_upd_same i close_conn) by apply close_same. apply I1.
+  - apply wf_upd; [exact I2|]. intros x _. apply wf_close.
 Qed.
 
 Lemma census_step secret w e :
   census_inv w -> Z.of_nat (length (conns w)) + 1 < P63 -> census_inv (fst (wstep secret w e)).
 Proof.
-  intros [I1 I2] Hb. destruct e as [j|slot j|slot st n other|slot|slot|r]; cbn [wstep].
+  intros [I1 I2] Hb. split; [|apply wf_step; exact I2].
+  destruct e as [j|slot j|slot st n other|slot|slot|r|j|slot ok|slot]; cbn [wstep].
   - (* EAuth *)
-    destruct (do_online (logger w) j true) as [s1 r] eqn:E. cbn [fst]. split; cbn [logger conns].
-    + intro i. rewrite nlisted_app. cbn [nlisted c_id c_listed].
-      pose proof (nlisted_bound i (conns w)) as Hnb.
-      assert (L := online_step (logger w) (OOnline j true) s1 r i _ E (I1 i)).
-      cbn [live_count ups] in L.
-      rewrite N.eqb_sym. destruct (i =? j)%N; cbn [andb b2z] in *.
-      * replace (nlisted i (conns w) + (1 + 0)) with (nlisted i (conns w) + 1) by lia.
-        apply L. lia.
-      * replace (nlisted i (conns w) + (0 + 0)) with (nlisted i (conns w)) by lia.
-        apply L. lia.
-    + intros c Hc Hop. apply in_app_or in Hc. destruct Hc as [Hc|[<-|[]]]; [auto|reflexivity].
+    destruct (do_online (logger w) j true) as [s1 r] eqn:E. cbn [fst logger conns].
+    intro i. rewrite nlisted_app. cbn [nlisted c_id]. unfold c_listed. cbn [c_ann c_exited negb andb].
+    pose proof (nlisted_bound i (conns w)) as Hnb.
+    assert (L := online_step (logger w) (OOnline j true) s1 r i _ E (I1 i)).
+    cbn [live_count ups] in L.
+    rewrite N.eqb_sym. destruct (i =? j)%N; cbn [andb b2z] in *.
+    + replace (nlisted i (conns w) + (1 + 0)) with (nlisted i (conns w) + 1) by lia.
+      apply L. lia.
+    + replace (nlisted i (conns w) + (0 + 0)) with (nlisted i (conns w)) by lia.
+      apply L. lia.
   - (* EAuthAgain *)
-    destruct (nth_error (conns w) slot) as [c|]; [|split; assumption].
-    destruct (c_open c); split; assumption.
+    destruct (nth_error (conns w) slot) as [c|]; [|assumption].
+    destruct (c_open c); assumption.
   - (* EReport *)
-    destruct (nth_error (conns w) slot) as [c|]; [|split; assumption].
-    destruct (c_open c); [|split; assumption].
+    destruct (nth_error (conns w) slot) as [c|]; [|assumption].
+    destruct (c_open c); [|assumption].
     destruct (do_log (logger w) (c_id c) (site_tx st n) (site_rx st n)) as [s' r] eqn:Hl.
     assert (Ho : online s' = online (logger w)).
     { unfold do_log in Hl. destruct (mem _ _); inversion Hl; reflexivity. }
-    destruct r; try (cbn [fst]; split; cbn [logger conns]; [intro i; rewrite Ho; apply I1|assumption]).
-    destruct (site_action st b other); cbn [fst].
-    + split; cbn [logger conns]; [intro i; rewrite Ho; apply I1|assumption].
-    + apply close_keeps_inv; [exact Ho|split; assumption].
+    destruct r; try (cbn [fst logger conns]; intro i; rewrite Ho; apply I1).
+    destruct (site_action st b other); cbn [fst logger conns]; intro i; rewrite Ho.
+    + apply I1.
+    + rewrite (nlisted_upd_same i close_conn) by apply close_same. apply I1.
   - (* EClientClose *)
-    destruct (nth_error (conns w) slot) as [c|]; [|split; assumption].
-    destruct (c_open c); [|split; assumption]. cbn [fst].
-    apply close_keeps_inv; [reflexivity|split; assumption].
+    destruct (nth_error (conns w) slot) as [c|]; [|assumption].
+    destruct (c_open c); [|assumption]. cbn [fst logger conns]. intro i.
+    rewrite (nlisted_upd_same i close_conn) by apply close_same. apply I1.
   - (* EHandlerReturn *)
-    destruct (nth_error (conns w) slot) as [c|] eqn:Hn; [|split; assumption].
-    destruct (c_open c) eqn:Hop; cbn [negb andb]; [split; assumption|].
-    destruct (c_listed c) eqn:Hli; [|split; assumption].
-    destruct (do_online (logger w) (c_id c) false) as [s1 r] eqn:E. cbn [fst].
-    split; cbn [logger conns].
-    + intro i. rewrite (nlisted_upd i unlist_conn _ _ _ Hn). cbn [unlist_conn c_id c_listed].
+    destruct (nth_error (conns w) slot) as [c|] eqn:Hn; [|assumption].
+    destruct (negb (c_open c) && negb (c_busy c) && negb (c_exited c)) eqn:G; [|assumption].
+    assert (Hw : wfb c = true) by (apply I2; eapply nth_error_In; exact Hn).
+    destruct (c_flag c) eqn:F.
+    + assert (Hli : c_listed c = true).
+      { revert G F Hw. destruct c as [i0 [] [] [] [] []]; cbn; congruence. }
+      destruct (do_online (logger w) (c_id c) false) as [s1 r] eqn:E. cbn [fst logger conns].
+      intro i. rewrite (nlisted_upd i unlist_conn _ _ _ Hn).
+      replace (c_listed (unlist_conn c)) with false
+        by (unfold c_listed; cbn [unlist_conn c_ann c_exited]; now rewrite Bool.andb_false_r).
+      cbn [unlist_conn c_id].
       rewrite Hli, Bool.andb_false_r, Bool.andb_true_r.
       pose proof (nlisted_bound i (conns w)) as Hnb.
       pose proof (nlisted_bound i (upd slot unlist_conn (conns w))) as Hnb2.
-      rewrite (nlisted_upd i unlist_conn _ _ _ Hn) in Hnb2. cbn [unlist_conn c_id c_listed] in Hnb2.
+      rewrite (nlisted_upd i unlist_conn _ _ _ Hn) in Hnb2.
+      replace (c_listed (unlist_conn c)) with false in Hnb2
+        by (unfold c_listed; cbn [unlist_conn c_ann c_exited]; now rewrite Bool.andb_false_r).
+      cbn [unlist_conn c_id] in Hnb2.
       rewrite Hli, Bool.andb_false_r, Bool.andb_true_r in Hnb2.
       assert (L := online_step (logger w) (OOnline (c_id c) false) s1 r i _ E (I1 i)).
       cbn [live_count ups] in L. rewrite (N.eqb_sym (c_id c) i) in Hnb2 |- *.
@@ -246,12 +321,43 @@ Proof.
       * replace (nlisted i (conns w) - 1 + 0) with (Z.max 0 (nlisted i (conns w) - 1)) by lia.
         apply L. lia.
       * replace (nlisted i (conns w) - 0 + 0) with (nlisted i (conns w)) by lia. apply L. lia.
-    + intros x Hx Hxo. destruct (in_upd _ _ _ _ Hx) as [H|(c0 & Hn0 & ->)]; [auto|].
-      rewrite Hn in Hn0. inversion Hn0; subst c0. cbn in Hxo. congruence.
+    + (* the flag is not set: nothing was announced, nothing is reported *)
+      assert (Hli : c_listed c = false).
+      { revert G F Hw. destruct c as [i0 [] [] [] [] []]; cbn; congruence. }
+      cbn [fst logger conns]. intro i. rewrite (nlisted_upd i unlist_conn _ _ _ Hn).
+      replace (c_listed (unlist_conn c)) with false
+        by (unfold c_listed; cbn [unlist_conn c_ann c_exited]; now rewrite Bool.andb_false_r).
+      rewrite Hli, !Bool.andb_false_r. cbn [b2z].
+      replace (nlisted i (conns w) - 0 + 0) with (nlisted i (conns w)) by lia. apply I1.
   - (* EHttp *)
     destruct (http_step secret (logger w) r) as [s' h] eqn:E. cbn [fst].
     pose proof (http_effects secret (logger w) r) as He. rewrite E in He. cbn [fst] in He.
-    destruct He as [Ho _]. split; cbn [logger conns]; [intro i; rewrite Ho; apply I1|assumption].
+    destruct He as [Ho _]. cbn [logger conns]. intro i; rewrite Ho; apply I1.
+  - (* EAuthBegin: nothing announced yet *)
+    cbn [fst logger conns]. intro i. rewrite nlisted_app. cbn [nlisted c_id]. unfold c_listed.
+    cbn [c_ann c_exited negb andb]. rewrite Bool.andb_false_r. cbn [b2z].
+    replace (nlisted i (conns w) + (0 + 0)) with (nlisted i (conns w)) by lia. apply I1.
+  - (* EAuthDecide *)
+    destruct (nth_error (conns w) slot) as [c|] eqn:Hn; [|assumption].
+    destruct (c_busy c && negb (c_flag c)); [|assumption]. cbn [fst logger conns]. intro i.
+    rewrite nlisted_upd_same; [apply I1|]. intro x. destruct ok; split; reflexivity.
+  - (* EAnnounce *)
+    destruct (nth_error (conns w) slot) as [c|] eqn:Hn; [|assumption].
+    destruct (c_busy c && c_flag c) eqn:G; [|assumption].
+    assert (Hw : wfb c = true) by (apply I2; eapply nth_error_In; exact Hn).
+    assert (Hli : c_listed c = false /\ c_listed (announce_conn c) = true).
+    { revert G Hw. destruct c as [i0 [] [] [] [] []]; cbn; try congruence; auto. }
+    destruct Hli as [Hl0 Hl1].
+    destruct (do_online (logger w) (c_id c) true) as [s1 r] eqn:E. cbn [fst logger conns].
+    intro i. rewrite (nlisted_upd i announce_conn _ _ _ Hn). rewrite Hl0, Hl1.
+    cbn [announce_conn c_id]. rewrite Bool.andb_false_r, Bool.andb_true_r.
+    pose proof (nlisted_bound i (conns w)) as Hnb.
+    assert (Hlen : nlisted i (conns w) + 1 < P63) by lia.
+    assert (L := online_step (logger w) (OOnline (c_id c) true) s1 r i _ E (I1 i)).
+    cbn [live_count ups] in L. rewrite (N.eqb_sym (c_id c) i).
+    destruct (i =? c_id c)%N; cbn [b2z] in *.
+    + replace (nlisted i (conns w) - 0 + 1) with (nlisted i (conns w) + 1) by lia. apply L. lia.
+    + replace (nlisted i (conns w) - 0 + 0) with (nlisted i (conns w)) by lia. apply L. lia.
 Qed.
 
 Lemma census_run secret : forall evs w,
@@ -293,7 +399,8 @@ Proof.
   split; [exact Hc|]. split; [exact Hg|]. split.
   - cbn [wstep]. unfold http_step, route. cbn [r_auth r_method r_path].
     rewrite String.eqb_refl. destruct (secret =? "")%string; reflexivity.
-  - split; [apply open_le_listed; exact I2|]. split; [apply quiescent_counts|].
+  - split; [apply open_le_listed; intros x Hx; apply wf_live_listed; apply I2; exact Hx|].
+    split; [apply quiescent_counts|].
     intros slot j. cbn [wstep]. destruct (nth_error (conns w) slot) as [x|]; [|reflexivity].
     destruct (c_open x); reflexivity.
 Qed.
@@ -316,7 +423,7 @@ Proof. cbv. repeat split; reflexivity. Qed.
 Lemma kick_disconnects secret evs slot c st n other :
   Z.of_nat (length evs) + 2 < P63 ->
   let w := wrun secret init_world evs in
-  nth_error (conns w) slot = Some c -> c_open c = true ->
+  nth_error (conns w) slot = Some c -> c_open c = true -> c_ann c = true ->
   mem (c_id c) (kick (logger w)) = true ->
   (is_tcp st = true -> other = false) ->
   let i := c_id c in
@@ -332,9 +439,14 @@ Lemma kick_disconnects secret evs slot c st n other :
   mem i (kick (logger w2)) = false /\ stats (logger w2) = stats (logger w) /\
   (forall j, j <> slot -> nth_error (conns w2) j = nth_error (conns w) j).
 Proof.
-  intros Hb w Hn Ho Hk Hoth i w1 w2.
+  intros Hb w Hn Ho Han Hk Hoth i w1 w2.
   assert (I : census_inv w) by (apply census_run; [apply census_init|cbn; lia]).
-  assert (Hli : c_listed c = true) by (apply (proj2 I); [eapply nth_error_In; exact Hn|exact Ho]).
+  assert (Hw : wfb c = true) by (apply (proj2 I); eapply nth_error_In; exact Hn).
+  assert (Hli : c_listed c = true).
+  { apply wf_live_listed; [exact Hw|]. unfold c_live. now rewrite Ho, Han. }
+  assert (Hfl : c_flag c = true /\ c_busy c = false /\ c_exited c = false).
+  { revert Ho Han Hw. destruct c as [i0 [] [] [] [] []]; cbn; try congruence; auto. }
+  destruct Hfl as (Hfl & Hbu & Hex).
   pose proof (report_result secret w slot st n other c Hn Ho) as Hr.
   rewrite Hk in Hr. cbn [negb] in Hr.
   destruct (wstep secret w (EReport slot st n other)) as [w1' r1] eqn:E1.
@@ -344,7 +456,7 @@ Proof.
   { rewrite Hc1. apply nth_error_upd_eq. exact Hn. }
   assert (E2 : wstep secret w1' (EHandlerReturn slot) =
                (mkWorld (fst (do_online (logger w1') i false)) (upd slot unlist_conn (conns w1')), WUnit)).
-  { cbn [wstep]. rewrite Hn1. cbn [close_conn c_open c_listed c_id negb]. rewrite Hli. reflexivity. }
+  { cbn [wstep]. rewrite Hn1. cbn [close_conn c_open c_busy c_exited c_flag c_id negb]. rewrite Hbu, Hex, Hfl. reflexivity. }
   assert (I2 : census_inv w2).
   { subst w2. replace w1' with (fst (wstep secret w (EReport slot st n other))) by (rewrite E1; reflexivity).
     change (census_inv (wrun secret w [EReport slot st n other; EHandlerReturn slot])).
@@ -359,10 +471,11 @@ Proof.
     by (apply nth_error_upd_eq; exact Hn).
   split.
   { rewrite Hc2. rewrite (nopen_upd i unlist_conn _ _ _ Hn1'), (nopen_upd i close_conn _ _ _ Hn).
-    cbn [unlist_conn close_conn c_id c_open]. fold i. rewrite N.eqb_refl, Ho. cbn. lia. }
+    unfold c_live. cbn [unlist_conn close_conn c_id c_open c_ann]. fold i. rewrite N.eqb_refl, Ho, Han. cbn. lia. }
   assert (Hnl : nlisted i (conns w2) = nlisted i (conns w) - 1).
   { rewrite Hc2. rewrite (nlisted_upd i unlist_conn _ _ _ Hn1'), (nlisted_upd i close_conn _ _ _ Hn).
-    cbn [unlist_conn close_conn c_id c_listed]. fold i. rewrite N.eqb_refl, Hli. cbn. lia. }
+    unfold c_listed in Hli |- *. cbn [unlist_conn close_conn c_id c_ann c_exited]. fold i.
+    rewrite N.eqb_refl, Hli, Han. cbn. lia. }
   split.
   { destruct (proj1 I2 i) as [Hg Hpos]. rewrite Hnl in Hg, Hpos. cbn zeta. split; assumption. }
   assert (Hl2 : logger w2 = fst (do_online (logger w1') i false)) by (subst w2; rewrite E2; reflexivity).
@@ -374,7 +487,280 @@ Proof.
 Qed.
 
 (* ------------------------------------------------------------------ *)
-(* 6. non-vacuity                                                      *)
+(* 6. online / offline notifications are paired                        *)
+(* ------------------------------------------------------------------ *)
+
+(* the notifications a connection record stands for *)
+Definition expected (c : conn) : list (id * bool) :=
+  if c_ann c then (c_id c, true) :: (if c_exited c then [(c_id c, false)] else []) else [].
+
+Definition lookup (l : list conn) (k : nat) : list (id * bool) :=
+  match nth_error l k with Some c => expected c | None => [] end.
+
+Definition at_slot (k : nat) (xs : list (id * bool)) : list note := map (pair k) xs.
+
+Definition ops_of (xs : list (id * bool)) : list op := map (fun x => OOnline (fst x) (snd x)) xs.
+
+Lemma conn_notes_app k a b : conn_notes k (a ++ b) = conn_notes k a ++ conn_notes k b.
+Proof. unfold conn_notes. now rewrite filter_app, map_app. Qed.
+
+Lemma conn_notes_at k j xs : conn_notes k (at_slot j xs) = if Nat.eqb j k then xs else [].
+Proof.
+  unfold conn_notes, at_slot. induction xs as [|x t IH]; cbn [map filter fst].
+  - destruct (Nat.eqb j k); reflexivity.
+  - destruct (Nat.eqb j k) eqn:E; cbn [map snd]; rewrite IH; reflexivity.
+Qed.
+
+Lemma note_ops_app a b : note_ops (a ++ b) = note_ops a ++ note_ops b.
+Proof. unfold note_ops. apply map_app. Qed.
+
+Lemma note_ops_at k xs : note_ops (at_slot k xs) = ops_of xs.
+Proof. unfold note_ops, at_slot, ops_of. rewrite map_map. reflexivity. Qed.
+
+Lemma ops_of_app a b : ops_of (a ++ b) = ops_of a ++ ops_of b.
+Proof. unfold ops_of. apply map_app. Qed.
+
+Lemma balance_app i : forall a b, balance i (a ++ b) = balance i a + balance i b.
+Proof.
+  induction a as [|o t IH]; intro b; cbn [app]; [cbn [balance]; lia|].
+  rewrite balance_cons, (balance_cons i o t), IH. lia.
+Qed.
+
+Lemma bal_expected i c :
+  balance i (ops_of (expected c)) = b2z ((c_id c =? i)%N && c_listed c).
+Proof.
+  unfold expected, c_listed. rewrite (N.eqb_sym (c_id c) i).
+  destruct (c_ann c), (c_exited c); cbn [ops_of map fst snd balance negb andb];
+    destruct (i =? c_id c)%N; cbn [andb b2z]; lia.
+Qed.
+
+Lemma apply_notes_app s a b : apply_notes s (a ++ b) = apply_notes (apply_notes s a) b.
+Proof. unfold apply_notes. apply fold_left_app. Qed.
+
+Lemma do_online_ext s1 s2 i b :
+  online s1 = online s2 -> online (fst (do_online s1 i b)) = online (fst (do_online s2 i b)).
+Proof.
+  intro H. unfold do_online. rewrite H. destruct b; [reflexivity|].
+  destruct (_ <=? _); reflexivity.
+Qed.
+
+Lemma apply_notes_ext : forall tr s1 s2,
+  online s1 = online s2 -> online (apply_notes s1 tr) = online (apply_notes s2 tr).
+Proof.
+  induction tr as [|n t IH]; intros s1 s2 H; [exact H|].
+  change (apply_notes s1 (n :: t)) with (apply_notes (fst (do_online s1 (fst (snd n)) (snd (snd n)))) t).
+  change (apply_notes s2 (n :: t)) with (apply_notes (fst (do_online s2 (fst (snd n)) (snd (snd n)))) t).
+  apply IH. apply do_online_ext. exact H.
+Qed.
+
+Lemma apply_notes_run : forall tr s, apply_notes s tr = fst (run s (note_ops tr)).
+Proof.
+  induction tr as [|n t IH]; intro s; [reflexivity|].
+  change (apply_notes s (n :: t)) with (apply_notes (fst (do_online s (fst (snd n)) (snd (snd n)))) t).
+  cbn [note_ops map]. rewrite run_cons. cbn [step].
+  destruct (do_online s (fst (snd n)) (snd (snd n))) as [s1 r] eqn:E. cbn [fst].
+  rewrite IH. unfold note_ops. destruct (run s1 _) as [s2 rs]. reflexivity.
+Qed.
+
+(* what one event does to the connection table, the notifications and the online map *)
+Inductive shape (w w' : world) (ns : list note) : Prop :=
+| ShSame : conns w' = conns w -> ns = [] -> online (logger w') = online (logger w) -> shape w w' ns
+| ShNew c : conns w' = conns w ++ [c] -> c_exited c = false ->
+    ns = at_slot (length (conns w)) (expected c) ->
+    online (logger w') = online (apply_notes (logger w) ns) -> shape w w' ns
+| ShUpd slot c f xs : nth_error (conns w) slot = Some c -> conns w' = upd slot f (conns w) ->
+    expected (f c) = expected c ++ xs -> (length xs <= 1)%nat -> ns = at_slot slot xs ->
+    online (logger w') = online (apply_notes (logger w) ns) -> shape w w' ns.
+
+Lemma wstep_shape secret w e :
+  wf_all (conns w) -> shape w (fst (wstep secret w e)) (wnote w e).
+Proof.
+  intro W. destruct e as [j|slot j|slot st n other|slot|slot|r|j|slot ok|slot]; cbn [wstep wnote].
+  - (* EAuth *)
+    apply (ShNew _ _ _ (mkConn j true true false true false)); reflexivity.
+  - destruct (nth_error (conns w) slot) as [c|]; [|apply ShSame; reflexivity].
+    destruct (c_open c); apply ShSame; reflexivity.
+  - (* EReport *)
+    destruct (nth_error (conns w) slot) as [c|] eqn:Hn; [|apply ShSame; reflexivity].
+    destruct (c_open c); [|apply ShSame; reflexivity].
+    destruct (do_log (logger w) (c_id c) (site_tx st n) (site_rx st n)) as [s' r] eqn:Hl.
+    assert (Ho : online s' = online (logger w)).
+    { unfold do_log in Hl. destruct (mem _ _); inversion Hl; reflexivity. }
+    destruct r; try (apply ShSame; [reflexivity|reflexivity|exact Ho]).
+    destruct (site_action st b other); cbn [fst].
+    + apply ShSame; [reflexivity|reflexivity|exact Ho].
+    + apply (ShUpd _ _ _ slot c close_conn []);
+        [exact Hn|reflexivity| |cbn; lia|reflexivity|exact Ho].
+      unfold expected. cbn [close_conn c_ann c_exited c_id]. now rewrite app_nil_r.
+  - (* EClientClose *)
+    destruct (nth_error (conns w) slot) as [c|] eqn:Hn; [|apply ShSame; reflexivity].
+    destruct (c_open c); [|apply ShSame; reflexivity]. cbn [fst].
+    apply (ShUpd _ _ _ slot c close_conn []);
+      [exact Hn|reflexivity| |cbn; lia|reflexivity|reflexivity].
+    unfold expected. cbn [close_conn c_ann c_exited c_id]. now rewrite app_nil_r.
+  - (* EHandlerReturn *)
+    destruct (nth_error (conns w) slot) as [c|] eqn:Hn; [|apply ShSame; reflexivity].
+    assert (Hw : wfb c = true) by (apply W; eapply nth_error_In; exact Hn).
+    destruct (negb (c_open c) && negb (c_busy c) && negb (c_exited c)) eqn:G;
+      [|apply ShSame; reflexivity].
+    destruct (c_flag c) eqn:F; cbn [fst andb].
+    + apply (ShUpd _ _ _ slot c unlist_conn [(c_id c, false)]);
+        [exact Hn|reflexivity| |cbn; lia|reflexivity|reflexivity].
+      revert G F Hw. destruct c as [i0 [] [] [] [] []]; cbn; congruence.
+    + apply (ShUpd _ _ _ slot c unlist_conn []);
+        [exact Hn|reflexivity| |cbn; lia|reflexivity|reflexivity].
+      revert G F Hw. destruct c as [i0 [] [] [] [] []]; cbn; congruence.
+  - (* EHttp *)
+    destruct (http_step secret (logger w) r) as [s' h] eqn:E. cbn [fst].
+    pose proof (http_effects secret (logger w) r) as He. rewrite E in He. cbn [fst] in He.
+    apply ShSame; [reflexivity|reflexivity|exact (proj1 He)].
+  - (* EAuthBegin *)
+    apply (ShNew _ _ _ (mkConn j true false true false false)); reflexivity.
+  - (* EAuthDecide *)
+    destruct (nth_error (conns w) slot) as [c|] eqn:Hn; [|apply ShSame; reflexivity].
+    destruct (c_busy c && negb (c_flag c)); [|apply ShSame; reflexivity]. cbn [fst].
+    apply (ShUpd _ _ _ slot c (if ok then store_conn else reject_conn) []);
+      [exact Hn|reflexivity| |cbn; lia|reflexivity|reflexivity].
+    destruct ok; unfold expected; cbn [store_conn reject_conn c_ann c_exited c_id]; now rewrite app_nil_r.
+  - (* EAnnounce *)
+    destruct (nth_error (conns w) slot) as [c|] eqn:Hn; [|apply ShSame; reflexivity].
+    assert (Hw : wfb c = true) by (apply W; eapply nth_error_In; exact Hn).
+    destruct (c_busy c && c_flag c) eqn:G; [|apply ShSame; reflexivity]. cbn [fst].
+    apply (ShUpd _ _ _ slot c announce_conn [(c_id c, true)]);
+      [exact Hn|reflexivity| |cbn; lia|reflexivity|reflexivity].
+    revert G Hw. destruct c as [i0 [] [] [] [] []]; cbn; congruence.
+Qed.
+
+Definition pair_inv (w : world) (tr : list note) (s0 : state) : Prop :=
+  (forall k, conn_notes k tr = lookup (conns w) k) /\
+  (forall i, balance i (note_ops tr) = nlisted i (conns w)) /\
+  (forall i, paired i (note_ops tr)) /\
+  online (logger w) = online (apply_notes s0 tr).
+
+Lemma paired_snoc i a b :
+  paired i a -> (length b <= 1)%nat -> 0 <= balance i (a ++ b) -> paired i (a ++ b).
+Proof.
+  intros P Hb Hz n. rewrite firstn_app.
+  destruct (n - length a)%nat as [|m] eqn:E.
+  - cbn [firstn]. rewrite app_nil_r. apply P.
+  - rewrite (firstn_all2 a) by lia. rewrite (firstn_all2 b) by lia. exact Hz.
+Qed.
+
+Lemma lookup_beyond l k : (length l <= k)%nat -> lookup l k = [].
+Proof. intro H. unfold lookup. apply nth_error_None in H. now rewrite H. Qed.
+
+Lemma pair_step w w' ns tr s0 :
+  pair_inv w tr s0 -> shape w w' ns -> pair_inv w' (tr ++ ns) s0.
+Proof.
+  intros (P1 & P2 & P3 & P4) Sh.
+  assert (Hon : online (logger w') = online (apply_notes (logger w) ns) ->
+                online (logger w') = online (apply_notes s0 (tr ++ ns))).
+  { intro H. rewrite H, apply_notes_app. apply apply_notes_ext. exact P4. }
+  destruct Sh as [Hc -> Ho|c Hc Hex -> Ho|slot c f xs Hn Hc Hexp Hlen -> Ho].
+  - rewrite app_nil_r. unfold pair_inv. rewrite Hc, Ho. repeat split; assumption.
+  - (* a new connection *)
+    assert (Hb2 : forall i, balance i (note_ops (tr ++ at_slot (length (conns w)) (expected c))) =
+                            nlisted i (conns w')).
+    { intro i. rewrite note_ops_app, balance_app, note_ops_at, bal_expected, P2, Hc, nlisted_app.
+      cbn [nlisted]. lia. }
+    split; [|split; [exact Hb2|split; [|apply Hon; exact Ho]]].
+    + intro k. rewrite conn_notes_app, conn_notes_at, P1, Hc. unfold lookup.
+      destruct (Nat.eqb_spec (length (conns w)) k) as [<-|Hne].
+      * rewrite nth_error_app2 by lia. rewrite Nat.sub_diag. cbn [nth_error].
+        assert (nth_error (conns w) (length (conns w)) = None) as -> by (apply nth_error_None; lia).
+        reflexivity.
+      * rewrite app_nil_r. destruct (Nat.lt_ge_cases k (length (conns w))) as [Hlt|Hge].
+        -- rewrite nth_error_app1 by exact Hlt. reflexivity.
+        -- assert (nth_error (conns w) k = None) as -> by (apply nth_error_None; exact Hge).
+           assert (nth_error (conns w ++ [c]) k = None) as ->
+             by (apply nth_error_None; rewrite app_length; cbn [length]; lia).
+           reflexivity.
+    + intro i. rewrite note_ops_app. apply paired_snoc; [apply P3| |].
+      * rewrite note_ops_at. unfold ops_of, expected. rewrite map_length, Hex.
+        destruct (c_ann c); cbn; lia.
+      * rewrite <- note_ops_app, Hb2. apply nlisted_bound.
+  - (* an update of one record *)
+    assert (Hb2 : forall i, balance i (note_ops (tr ++ at_slot slot xs)) = nlisted i (conns w')).
+    { intro i. rewrite note_ops_app, balance_app, note_ops_at, P2, Hc, (nlisted_upd i f _ _ _ Hn).
+      rewrite <- !bal_expected, Hexp, ops_of_app, balance_app. lia. }
+    split; [|split; [exact Hb2|split; [|apply Hon; exact Ho]]].
+    + intro k. rewrite conn_notes_app, conn_notes_at, P1, Hc. unfold lookup.
+      destruct (Nat.eqb_spec slot k) as [<-|Hne].
+      * rewrite (nth_error_upd_eq f _ _ _ Hn), Hn. symmetry. exact Hexp.
+      * rewrite nth_error_upd_neq by congruence. now rewrite app_nil_r.
+    + intro i. rewrite note_ops_app. apply paired_snoc; [apply P3| |].
+      * rewrite note_ops_at. unfold ops_of. rewrite map_length. exact Hlen.
+      * rewrite <- note_ops_app, Hb2. apply nlisted_bound.
+Qed.
+
+Lemma pair_run secret : forall evs w tr s0,
+  wf_all (conns w) -> pair_inv w tr s0 ->
+  pair_inv (wrun secret w evs) (tr ++ wtrace secret w evs) s0.
+Proof.
+  induction evs as [|e t IH]; intros w tr s0 W P; cbn [wrun wtrace].
+  - rewrite app_nil_r. exact P.
+  - rewrite app_assoc. apply IH; [apply wf_step; exact W|].
+    apply (pair_step w); [exact P|apply wstep_shape; exact W].
+Qed.
+
+Lemma pair_init : pair_inv init_world [] init_state.
+Proof.
+  split; [intro k; unfold lookup; cbn; now destruct k|].
+  split; [reflexivity|]. split; [|reflexivity].
+  intros i n. destruct n; cbn; lia.
+Qed.
+
+(* the pairing of notifications by core/server, for every event sequence: the stats object has seen
+   exactly the trace; per connection the trace holds nothing, or one online, or one online followed by
+   one offline (never an offline first or alone, never two of a kind); per user no prefix has more
+   offline than online notifications (hypothesis `paired` of the online theorems), and the balance is
+   the number of announced connections whose handleClient has not reported offline yet *)
+Lemma notifications_paired secret evs :
+  let w := wrun secret init_world evs in
+  let tr := wtrace secret init_world evs in
+  online (logger w) = online (fst (run init_state (note_ops tr))) /\
+  (forall k, conn_notes k tr = [] \/
+             exists i, conn_notes k tr = [(i, true)] \/ conn_notes k tr = [(i, true); (i, false)]) /\
+  (forall i, paired i (note_ops tr)) /\
+  (forall i, balance i (note_ops tr) = nlisted i (conns w) /\ 0 <= nlisted i (conns w)).
+Proof.
+  intros w tr.
+  destruct (pair_run secret evs init_world [] init_state (fun c H => match H with end) pair_init)
+    as (P1 & P2 & P3 & P4).
+  cbn [app] in P1, P2, P3, P4. fold w in P1, P2, P4. fold tr in P1, P2, P3, P4.
+  split; [rewrite <- apply_notes_run; exact P4|].
+  split; [|split; [exact P3|intro i; split; [apply P2|apply nlisted_bound]]].
+  intro k. rewrite P1. unfold lookup. destruct (nth_error (conns w) k) as [c|]; [|left; reflexivity].
+  unfold expected. destruct (c_ann c); [|left; reflexivity].
+  right. exists (c_id c). destruct (c_exited c); [right|left]; reflexivity.
+Qed.
+
+(* the connection closed while its auth was pending (the client gave up on a slow authenticator
+   backend): handleClient cannot continue before the auth handler has returned, the handler announces
+   unconditionally after storing the flag - online then offline, the user's other connection stays listed *)
+Example ex_closed_while_auth_pending :
+  let evs := [EAuth 0%N; EAuthBegin 0%N; EClientClose 1; EHandlerReturn 1; EAuthDecide 1 true;
+              EHandlerReturn 1; EAnnounce 1; EHandlerReturn 1; EHandlerReturn 1] in
+  wtrace "" init_world evs = [(0%nat, (0%N, true)); (1%nat, (0%N, true)); (1%nat, (0%N, false))] /\
+  online (logger (wrun "" init_world evs)) = [(0%N, 1)] /\
+  nopen 0%N (conns (wrun "" init_world evs)) = 1.
+Proof. vm_compute. repeat split; reflexivity. Qed.
+
+(* the variant in which the handler returns without announcing a client that went away, AFTER the flag
+   was stored (model/C15_Sites.v return_unannounced): handleClient reads the flag and reports offline
+   a connection nobody reported online; the decrement is taken from the user's other, live connection,
+   which disappears from the listing *)
+Lemma unannounced_return_refuted secret :
+  let w0 := wrun secret init_world [EAuth 0%N; EAuthBegin 0%N; EClientClose 1; EAuthDecide 1 true] in
+  let w1 := return_unannounced w0 1 in
+  let w2 := fst (wstep secret w1 (EHandlerReturn 1)) in
+  wnote w1 (EHandlerReturn 1) = [(1%nat, (0%N, false))] /\
+  conn_notes 1 (wtrace secret init_world [EAuth 0%N; EAuthBegin 0%N; EClientClose 1; EAuthDecide 1 true]) = [] /\
+  nopen 0%N (conns w2) = 1 /\ get 0%N (online (logger w2)) = None.
+Proof. cbv. repeat split; reflexivity. Qed.
+
+(* ------------------------------------------------------------------ *)
+(* 7. non-vacuity                                                      *)
 (* ------------------------------------------------------------------ *)
 
 (* two users; user 0 has two connections; a kick of user 0; the next report of user 0 comes
